@@ -22,13 +22,14 @@ RULE = (
 )
 ASSUMPTIONS = [
     "animals >= 90 px apart, drift <= 2 px/frame, body size ~14 px (IoU/OKS/negative distance all prefer the own track)",
+    "fast scenario (distance-scoring configurations only): animals 100 px apart, all moving 30 px per frame in parallel, single-frame absences only - so the cumulative displacement exceeds the separation within the frame bound while each step stays far below it (stale-history bugs need this to show within a short history)",
     "absence counted in frames (empty frames included), which is never more lenient than the tracker's own queue-entry count",
     "bounds: quick K=3,F=3 and K=2,F=5, windows {2,3}; thorough K=3,F=5 and K=2,F=7, windows {1,2,3}, reductions {mean,max}",
     "state merging validated by replaying a 1-in-13 subset of merged histories on fresh trackers",
 ]
 
 
-def admissible(ev, seen_last, frame, window):
+def admissible(ev, seen_last, frame, window, fast=False):
     """ev: list of (animal, score). seen_last: animal -> last frame seen."""
     present = {a for a, _ in ev}
     newcomers = [a for a in present if a not in seen_last]
@@ -39,10 +40,14 @@ def admissible(ev, seen_last, frame, window):
             gap = frame - seen_last[a] - 1
             if not gap < window:
                 return False
+            if fast and gap > 1:
+                return False  # fast movers: only single-frame absences keep "movement << separation" meaningful
     return True
 
 
-def explore(part, cfg, k, depth):
+def explore(part, cfg, k, depth, fast=False):
+    T.MODE["fast"] = bool(fast)
+    drift = "fast" if fast else True
     events = T.frame_events(k)
     window = cfg["window_size"]
     cfgkey = core.digest(cfg)
@@ -58,15 +63,15 @@ def explore(part, cfg, k, depth):
         nxt = {}
         for hist, trk, ident, last in frontier:
             for ev in events:
-                if not admissible(ev, last, d, window):
+                if not admissible(ev, last, d, window, fast):
                     part.add("pruned_inadmissible")
                     continue
                 t2 = T.clone(trk)
-                inputs, out, err = T.step(t2, ev, frame_idx=d, drift=True)
+                inputs, out, err = T.step(t2, ev, frame_idx=d, drift=drift)
                 part.count()
                 part.transition()
                 h2 = hist + [ev]
-                case = {"cfg": cfg, "history": h2, "k": k}
+                case = {"cfg": cfg, "history": h2, "k": k, "fast": bool(fast)}
                 carried = any(a in ident for a, _ in ev)
                 if carried:
                     part.nontriv(f"{cfgkey}:{h2}")
@@ -103,7 +108,7 @@ def explore(part, cfg, k, depth):
                     if nmerge % 13 == 0:
                         fresh = T.new_tracker(cfg)
                         for i, e in enumerate(h2):
-                            T.step(fresh, e, frame_idx=i, drift=True)
+                            T.step(fresh, e, frame_idx=i, drift=drift)
                         part.add("replay_crosschecks")
                         if T.canon(fresh, with_frames=True, history=h2) != key[0]:
                             part.violation(
@@ -119,8 +124,8 @@ def explore(part, cfg, k, depth):
 
 
 def work(part, shard):
-    for cfg, k, depth in shard:
-        explore(part, cfg, k, depth)
+    for job in shard:
+        explore(part, *job)
 
 
 def run(ctx):
@@ -128,11 +133,14 @@ def run(ctx):
     if ctx.tier == "quick":
         cfgs = T.all_configs(windows=[2, 3], thresholds=[0.0])
         jobs = [(c, 3, 3) for c in cfgs] + [(c, 2, 5) for c in cfgs]
-        ctx.bounds = {"K3_frames": 3, "K2_frames": 5, "configs": len(cfgs)}
+        jobs += [(c, 2, 6, True) for c in cfgs if c["scoring_method"] == "euclidean_dist"]
+        ctx.bounds = {"K3_frames": 3, "K2_frames": 5, "K2_frames_fast_scenario": 6, "configs": len(cfgs)}
     else:
         cfgs = T.all_configs(windows=[1, 2, 3], thresholds=[0.0], reductions=("mean", "max"))
         jobs = [(c, 3, 5) for c in cfgs] + [(c, 2, 7) for c in cfgs]
-        ctx.bounds = {"K3_frames": 5, "K2_frames": 7, "configs": len(cfgs)}
+        jobs += [(c, 2, 8, True) for c in cfgs if c["scoring_method"] == "euclidean_dist"]
+        jobs += [(c, 3, 5, True) for c in cfgs if c["scoring_method"] == "euclidean_dist"]
+        ctx.bounds = {"K3_frames": 5, "K2_frames": 7, "K2_frames_fast_scenario": 8, "K3_frames_fast_scenario": 5, "configs": len(cfgs)}
     jobs = core.rotate(jobs, ctx.seed)
     core.pmap(ctx, work, [[j] for j in jobs])
 
@@ -141,11 +149,14 @@ def replay(case):
     if case.get("harness"):
         return {"violates": True, "note": "harness self-check failure", "case": case}
     cfg = case["cfg"]
+    fast = bool(case.get("fast"))
+    T.MODE["fast"] = fast
+    drift = "fast" if fast else True
     trk = T.new_tracker(cfg)
     ident, log = {}, []
     for i, ev in enumerate(case["history"]):
         ev = [tuple(x) for x in ev]
-        inputs, out, err = T.step(trk, ev, frame_idx=i, drift=True)
+        inputs, out, err = T.step(trk, ev, frame_idx=i, drift=drift)
         names = [None if (err or x.track is None) else x.track.name for x in inputs]
         log.append({"frame": i, "event": ev, "tracks": names, "error": err})
         if err:
